@@ -58,3 +58,23 @@ Print Assumptions C12_bind_value.
 Print Assumptions C12_bind_reject.
 Print Assumptions C12_rejected_not_invoked.
 Print Assumptions C12_bound_invokes.
+
+(* an explicit nil for a HelperContext parameter (struct or interface type) is
+   replaced by the usual helper context - current scope and the call's block -
+   exactly as when the argument is omitted; every other binding is left alone *)
+Theorem C12_nil_helper_context_struct : forall cur blk ps bs,
+  fix_nil_hctx cur blk (PHCtx :: ps) (BV (VOther 2) :: bs) = BHelp (HC cur blk) :: fix_nil_hctx cur blk ps bs.
+Proof. reflexivity. Qed.
+Theorem C12_nil_helper_context_iface : forall cur blk ps bs,
+  fix_nil_hctx cur blk (PHCtxI :: ps) (BV VNil :: bs) = BHelp (HC cur blk) :: fix_nil_hctx cur blk ps bs.
+Proof. reflexivity. Qed.
+Theorem C12_other_bindings_untouched : forall cur blk p ps b bs,
+  p <> PHCtx -> p <> PHCtxI ->
+  fix_nil_hctx cur blk (p :: ps) (b :: bs) = b :: fix_nil_hctx cur blk ps bs.
+Proof. intros cur blk p ps b bs H1 H2. destruct p; try reflexivity; contradiction. Qed.
+Theorem C12_fix_keeps_length : forall cur blk ps bs, length (fix_nil_hctx cur blk ps bs) = length bs.
+Proof.
+  intros cur blk ps. induction ps as [|p ps IH]; intros [|b bs]; try reflexivity.
+  cbn [fix_nil_hctx length]. f_equal. apply IH.
+Qed.
+Print Assumptions C12_nil_helper_context_struct.
